@@ -913,4 +913,11 @@ func main() {
 	np := root.poolSites(&w, "pool_sites")
 	writeIfChanged(filepath.Join(*out, "GenSites.v"), w.Bytes())
 	fmt.Printf("go2v: GenSites.v %d go statements, %d pool sites\n", ng, np)
+
+	// GenWaitSites.v (C05): blocking statements of the outbound call path (waitsites.go)
+	w.Reset()
+	fmt.Fprintf(&w, header, *repo)
+	nw, nf := root.waitSitesSafe(&w, *repo)
+	writeIfChanged(filepath.Join(*out, "GenWaitSites.v"), w.Bytes())
+	fmt.Printf("go2v: GenWaitSites.v %d wait sites in %d functions\n", nw, nf)
 }
